@@ -332,9 +332,7 @@ def generate(repo):
         need(len(sty) == 3, 'three S/T/Y lists expected, found %d' % len(sty))
         # the loop of setPhosPhoSites is tied semantically (g_minipy -> Props/Tie/minipy_phospho_tie.v), not by shape
         # clear_phosphosites / get_phosphosites / get_phosphosequence / get_STY_residues: semantic ties (minipy_phospho_tie.v)
-        km = ast.unparse(S('kappa_at_maxPhos'))
-        need("if len(self.phosphosites) == 0:\n        return self.kappa()" in km and "newseq[pos] = 'E'" in km
-             and 'return newseqObj.kappa()' in km, 'kappa_at_maxPhos')
+        # kappa_at_maxPhos: semantic tie (minipy_phoskappa_tie.v)
         d = S('calculateKappaDistOfPhosphoStates')
         ds = ast.unparse(d)
         need("for phosphostatus in itertools.product('01', repeat=len(self.phosphosites)):" in ds, 'product order')
